@@ -226,6 +226,19 @@ def run_property(prop, tier, seed, root):
                 detail = {"obligation": f"{prop}/{fail['function']}/bounded.{fail['what']}", "function": fail["function"], "instance": fail.get("instance", ""),
                           "verdict": "bounded-failure", "reproduced": True, "replay": fail}
                 out_findings.append(Finding(prop, "bounded", fail["function"], fail.get("instance", ""), f"bounded.{fail['what']}", detail))
+    # ---- canaries: in-memory mutations of the extracted AST that must be refuted (vacuity guard)
+    canary_report = []
+    if os.path.realpath(root) == "/repo" or os.environ.get("VERIF_CANARIES") == "1":
+        from props.canaries import CANARIES
+        from pyvc import canary as _canary
+        for sp in CANARIES.get(prop, []):
+            try:
+                killed, detail = _canary.run_canary(interp, contracts, sp, timeout_ms=timeout_ms)
+            except Exception as e:
+                killed, detail = None, f"{type(e).__name__}: {e}"
+            canary_report.append({"function": sp[0], "mutation": f"{sp[1]}#{sp[2]}", "instance": sp[4], "killed": killed, "detail": str(detail)[:160]})
+            if killed is False:
+                errors.append(f"surviving canary: {sp[1]}#{sp[2]} in {sp[0]} ({detail}) -- contract too weak or encoding unsound")
     # ---- vacuity / baseline guards
     baseline = load_json(os.path.join(HERE, "baseline_obligations.json"), {}).get(prop)
     vanished = []
@@ -293,6 +306,7 @@ def run_property(prop, tier, seed, root):
         "rule": "bounded stand-in: spec function evaluated concretely vs the real function on seeded inputs; distinct = distinct (function, instance, input) triples",
         "explanation": cfg.get("explanation", ""),
         "known_findings_hit": [h["id"] for h, _ in known_hits],
+        "canaries": canary_report, "canaries_killed": sum(1 for c_ in canary_report if c_["killed"]),
         "undecided_detail": undecided[:20], "vanished_obligations": vanished[:20],
         "source_hash": repo.source_hash, "tree": tid,
         "extraction_drops": "comments, docstrings, text of exception messages/f-strings, decorators other than property/setter/classmethod/staticmethod/lru_cache/wraps/singledispatch (handled structurally)",
